@@ -624,11 +624,13 @@ func (e *EnumType) Set(name string, value int64) error {
 	if value > e.max {
 		return fmt.Errorf("value %d for %s too large (maximum is %d)", value, name, e.max)
 	}
-	e.ToString[value] = name
-	e.ToInt[name] = value
-	if value >= e.last {
+	// The first value assigned is the maximum so far, even if it is
+	// below the initial value of last.
+	if len(e.ToInt) == 0 || value > e.last {
 		e.last = value
 	}
+	e.ToString[value] = name
+	e.ToInt[name] = value
 	return nil
 }
 
